@@ -55,6 +55,20 @@ UncoveredList == LET S == Uncovered IN
                     IN [sec |-> u[1], mi |-> u[2], name |-> SecMsgs(u[1])[u[2]].name]]
 Counts == [sec \in Range(Sections) |-> [total |-> Len(SecMsgs(sec)),
                                          covered |-> Cardinality({mi \in DOMAIN SecMsgs(sec) : Covered(sec, SecMsgs(sec)[mi])})]]
+\* which member kinds the description uses (per context) and how many vectors sweep a member of that kind:
+\* a kind with members but no vector would be a vacuous config
+RECURSIVE KindsIn(_)
+KindsIn(t) == {t.kind} \cup (CASE t.kind = "array" -> KindsIn(t.member_type)
+                               [] t.kind = "optional" -> KindsIn(t.inner)
+                               [] t.kind = "snapshot_object" -> UNION {KindsIn(u) : u \in Range(MemberTypes(ObjOf(t.name)))}
+                               [] OTHER -> {})
+AllKinds == UNION {UNION {UNION {KindsIn(t) : t \in Range(SecTypes(sec, SecMsgs(sec)[mi]))}
+                          : mi \in DOMAIN SecMsgs(sec)} : sec \in Range(Sections)}
+KindVectors == [k \in AllKinds |->
+                 Cardinality({id \in VecIds : id[2] # 0 /\ id[3] # 0 /\ id[4] # 0
+                                               /\ k \in KindsIn(SecTypes(id[1], SecMsgs(id[1])[id[2]])[id[3]])})]
+ASSUME PrintT(<<"K", ToJson(KindVectors)>>)
+ASSUME \A k \in AllKinds : KindVectors[k] > 0 \/ Uncovered # {}
 ASSUME PrintT(<<"U", ToJson(UncoveredList)>>)
 ASSUME PrintT(<<"N", ToJson(Counts)>>)
 
